@@ -40,16 +40,18 @@ abbrev Id := BitVec 64
 
 def nodeKey (id : Id) (s : Byte) : Bytes := Keys.NodeKey id s
 
+/-- the guard `len(p.Field) != 0` of a write step -/
+def Pt.guard (p : Pt) : Option Fld → Bool
+  | none => true
+  | some f => !(p.fld f).isEmpty
+
 /-- `WriteTo` -/
 def writeSteps (id : Id) (p : Pt) : List WStep → KV → KV
   | [], kv => kv
   | w :: rest, kv =>
-    let go := match w.guard with
-      | none => true
-      | some f => !(p.fld f).isEmpty
-    if go then
-      let kv' := kv.put (nodeKey id w.suffix) (p.fld w.src)
-      if w.ret then kv' else writeSteps id p rest kv'
+    if p.guard w.guard then
+      if w.ret then kv.put (nodeKey id w.suffix) (p.fld w.src)
+      else writeSteps id p rest (kv.put (nodeKey id w.suffix) (p.fld w.src))
     else writeSteps id p rest kv
 
 /-- `ReadFrom`: `none` = ErrNotFound.  Running off the end of the plan returns what was filled. -/
@@ -101,11 +103,9 @@ structure Cfg where
   trigger : Nat := 0
   deriving Repr
 
-def strKey (s : String) : Bytes := s.toUTF8.toList.map fun b => BitVec.ofNat 8 b.toNat
-
-def thresholdKey : Bytes := strKey binaryThresholdKey
-def centroidDistsKey : Bytes := strKey productCentroidDistsKey
-def flatCentroidsKey : Bytes := strKey productFlatCentroidsKey
+def thresholdKey : Bytes := binaryThresholdKeyBytes
+def centroidDistsKey : Bytes := productCentroidDistsKeyBytes
+def flatCentroidsKey : Bytes := productFlatCentroidsKeyBytes
 
 /-- `plainStore` / `binaryQuantizer` / `productQuantizer`.  `params` = threshold bytes (binary) or
 flatCentroids bytes (product), `[]` = not trained (`threshold == nil` / `len(flatCentroids) == 0`);
